@@ -648,29 +648,31 @@ the caller to whom it was handed inside an iterator — never nobody (the serve 
 for the close for ever), never both (closing twice panics the hand-off channel) -/
 theorem C06_helper_response_closed_once (a : Api) (sh : Shape) :
     (call a sh).helperCloses + (if (call a sh).handed then 1 else 0) = 1 := by
-  cases a <;> simp only [call, unmarshalIQ, iterIQ] <;> (repeat' split) <;> simp_all
+  cases a <;> simp only [call, unmarshalIQ, iterIQ, ibbOpen] <;> (repeat' split) <;> simp_all
 
 /-- a call that returns an error hands nothing to the caller (so the helper has closed the
 response), and only the iterator helpers ever hand something on -/
 theorem C06_helper_error_means_closed (a : Api) (sh : Shape) (h : (call a sh).err = true) :
     (call a sh).handed = false ∧ (call a sh).helperCloses = 1 := by
-  cases a <;> simp only [call, unmarshalIQ, iterIQ] at h ⊢ <;> (repeat' split) <;> simp_all
+  cases a <;> simp only [call, unmarshalIQ, iterIQ, ibbOpen] at h ⊢ <;> (repeat' split) <;> simp_all
 
 /-- the iterator helpers hand the response on exactly when they succeed; the others never do -/
 theorem C06_helper_handed_iff (a : Api) (sh : Shape) :
     (call a sh).handed = ((a = .iter ∨ a = .iterElement) && !(call a sh).err) := by
-  cases a <;> simp only [call, unmarshalIQ, iterIQ] <;> (repeat' split) <;> simp_all
+  cases a <;> simp only [call, unmarshalIQ, iterIQ, ibbOpen] <;> (repeat' split) <;> simp_all
 
 /-- a reply whose addresses are not JIDs is an error for every helper -/
 theorem C06_helper_bad_address_is_error (a : Api) (sh : Shape) (h : sh.from_ = .invalid ∨ sh.to = .invalid) :
     (call a sh).err = true := by
   have hf : newIQFails sh = true := by
     rcases h with h | h <;> simp [newIQFails, h]
-  cases a <;> simp [call, unmarshalIQ, iterIQ, hf]
+  cases a <;> simp [call, unmarshalIQ, iterIQ, ibbOpen, hf]
 
 -- non-vacuity: the path on which only the deferred closer stands between a malformed reply and a stalled serve loop
 example : call .iter ⟨.result, .invalid, .absent, .one⟩ = ⟨true, false, 1⟩ := by decide
 example : call .iterElement ⟨.result, .valid, .valid, .nested⟩ = ⟨false, true, 0⟩ := by decide
+-- round E: `ibb.open` never hands its response on and closes it on the refusing path too
+example : call .ibbOpen ⟨.error, .valid, .absent, .bad⟩ = ⟨true, false, 1⟩ := by decide
 
 end Wrap
 
